@@ -6,8 +6,8 @@
  *                                  (whether or not PCRE2 then accepts it)
  *   match <pattern> <string>+   -> per string "<a> <b>" (joined by ','): a = ly_pattern_match() (public utility),
  *                                  b = lyd_value_validate() on leaf l of a module compiled on the fly with
- *                                  "pattern <pattern>"; each is 1 (match), 0 (no match) or E (pattern rejected /
- *                                  other error)
+ *                                  "pattern <pattern>"; each is 1 (match), 0 (no match), E (pattern rejected) or
+ *                                  L (the matcher failed on this string, e.g. PCRE2 match limit)
  *   matchlist <string> (<inv> <pattern>)*  -> lyd_value_validate() on a leaf whose type has all the listed
  *                                  patterns, those with inv = 1 carrying "modifier invert-match": 1 / 0 / E
  *
@@ -140,7 +140,7 @@ validate(int n, char **invs, char **pats, const char *str, size_t slen)
     }
     r = lyd_value_validate(mctx, leaf, str, slen, NULL, NULL, NULL);
     ly_err_clean(mctx, NULL);
-    return (r == LY_SUCCESS) ? '1' : ((r == LY_EVALID) ? '0' : 'E');
+    return (r == LY_SUCCESS) ? '1' : ((r == LY_EVALID) ? '0' : 'L');
 }
 
 int
@@ -184,7 +184,7 @@ main(void)
 
                 r = ly_pattern_match(ctx, pat, str, (uint32_t)slen, NULL);
                 ly_err_clean(ctx, NULL);
-                printf("%s%c %c", (i > 2) ? "," : "", (r == LY_SUCCESS) ? '1' : ((r == LY_ENOT) ? '0' : 'E'),
+                printf("%s%c %c", (i > 2) ? "," : "", (r == LY_SUCCESS) ? '1' : ((r == LY_ENOT) ? '0' : ((r == LY_EVALID) ? 'E' : 'L')),
                         validate(1, &zero, &c.f[1], str, slen));
                 free(str);
             }
